@@ -514,6 +514,12 @@ class SList(Sym):
     def _vc_parts(self):
         return (self.s,)
 
+    def _vc_bool(self):
+        return SBool(self.length != 0)
+
+    def __bool__(self):
+        return bool(self._vc_bool())
+
     def _vc_subst(self, v, w):
         return SList(self.s._vc_subst(v, w), self.length)
 
@@ -667,6 +673,14 @@ class SMap(Sym):
 
     def __iter__(self):
         raise Unsupported("native iteration over a symbolic map")
+
+    def _vc_bool(self):
+        return SBool(self._vc_len().t != 0)
+
+    def __bool__(self):
+        if self.default is not None:
+            raise Unsupported("truth value of a defaultdict view")
+        return bool(self._vc_bool())
 
     def same_as(self, o):
         """formula: equal as finite maps"""
